@@ -502,8 +502,114 @@ CSS_EFFECTS = CSS_EFFECTS + CSS_SCOPE_EFFECTS
 UNCHANGED_UNDER = {'markup': [{'name': 'zzparent'}, {'name': 'ul'}, {'name': 'Table'}],
                    'stylesheet': [{'name': '@@property'}, {'name': '@@global'}]}
 
+# ------------------------------------------------------------------ KEY-FORM entries (mapping-valued options)
+# `markup.attributes` and `markup.valuePrefix` are MAPPINGS whose entries come in two documented key forms (option
+# comments of upstream emmet/src/config.ts, which py-emmet ports):
+#   markup.attributes   "Attribute name mapping. Can be used to change attribute names for output. For example, `class` ->
+#                       `className` in JSX.  If a key ends with `*`, this value will be used for multiple shorthand
+#                       attributes: `..` -> `styleName`"
+#   markup.valuePrefix  "Prefixes for attribute values.  If specified, a value is treated as prefix for object notation and
+#                       automatically converts attribute value into expression if `jsx` is enabled.  Same as in
+#                       `markup.attributes` option, a `*` can be used."
+# i.e. the entry under the plain attribute name speaks about the attribute however it was written; an entry under NAME*
+# takes its place when the shorthand operator was repeated (`..x`, `##x`); without a NAME* entry the plain entry applies to
+# the repeated form as well, and a NAME* entry alone says nothing about the single form or the bracket form `[name=x]`.
+# The option value is ONE value of ONE layer (the most specific layer's mapping replaces the less specific ones wholesale:
+# the precedence clause of C20 is per option key), so a caller layer that defines only the plain entry hides the starred
+# entries of the jsx / vue syntax defaults.  The plain entries above show each mapping in one key form on one way of
+# writing the attribute; here: every key form of the mapping (none / plain only / starred only / both / only entries for
+# another attribute) x every way of writing the attribute (single, doubled and tripled shorthand operator, bracket form,
+# on a nested repeated element, next to another attribute) for class, id and a bracket-only attribute (`for`).
+# Mixed runs (`..x.y`, `.x..y`) are not stated anywhere (which operator of the merged class attribute counts): not used.
+KEYFORM_ATTR_NAMES = ('class', 'className', 'styleName', ':class', 'id', 'for', 'htmlFor', 'Zq', 'Zs', 'Zo', 'Zo2')
+KEYFORM_PREFIXES = ('Zp', 'Zr', 'Zo', 'Zo2', 'styles')
+# (attribute, abbreviation, shorthand operator repeated?, tag of the form); the attribute value is always `w`
+KEYFORM_FORMS = [
+    ('class', 'zze.w', False, 'single'),
+    ('class', 'zze..w', True, 'doubled'),
+    ('class', 'zze...w', True, 'tripled'),
+    ('class', 'zze[class=w]', False, 'bracket'),
+    ('class', 'zzf>zze..w*2', True, 'doubled-nested-repeated'),
+    ('class', 'zze[title=t]..w', True, 'doubled-after-other-attribute'),
+    ('id', 'zze#w', False, 'single'),
+    ('id', 'zze##w', True, 'doubled'),
+    ('for', 'zze[for=w]', False, 'bracket'),
+]
+
+
+def keyform_values(attr, plain, starred):
+    """The key forms of a mapping for one attribute: no entry, plain only, starred only, both, other attribute only."""
+    return [{}, {attr: plain}, {attr + '*': starred}, {attr: plain, attr + '*': starred},
+            {'zzother': 'Zo', 'zzother*': 'Zo2'}]
+
+
+def keyform_shape(v, attr):
+    if not isinstance(v, dict):
+        return 'no-mapping'
+    if not v:
+        return 'empty'
+    has = (attr in v, attr + '*' in v)
+    return {(True, True): 'plain+starred', (True, False): 'plain-only', (False, True): 'starred-only',
+            (False, False): 'other-attributes-only'}[has]
+
+
+def _multi_lookup(v, attr, repeated):
+    r = v.get(attr + '*') if repeated else None
+    return r if r is not None else v.get(attr)
+
+
+def _attr_name_form(attr, repeated):
+    def show(v, fam, eff):
+        if not isinstance(v, dict) or eff('output.attributeCase') not in ('', None):
+            return None
+        name = _multi_lookup(v, attr, repeated)
+        if name is None:
+            name = attr
+        if not isinstance(name, str) or not name:
+            return None                      # an empty / non-string name: nothing stated
+        return [' %s=' % name], [' %s=' % n for n in KEYFORM_ATTR_NAMES if n != name]
+    return show
+
+
+def _value_prefix_form(attr, repeated):
+    def show(v, fam, eff):
+        if not isinstance(v, dict):
+            return None
+        p = _multi_lookup(v, attr, repeated)
+        cands = ['%s.w' % c for c in KEYFORM_PREFIXES]
+        if p is None:
+            return [], cands
+        if not isinstance(p, str) or not p:
+            return None
+        here = '%s.w' % p
+        jsx, q = eff('jsx.enabled'), _quote(eff)
+        if jsx is True:
+            shown = '={%s}' % here           # "converts attribute value into expression if jsx is enabled"
+        elif jsx in (False, None) and q is not None:
+            shown = '=%s%s%s' % (q, here, q)
+        else:
+            shown = here
+        return [shown], [c for c in cands if c != here]
+    return show
+
+
+def _keyform_effects():
+    out = []
+    for attr, abbr, repeated, tag in KEYFORM_FORMS:
+        for key, show, vals in (('markup.attributes', _attr_name_form(attr, repeated), keyform_values(attr, 'Zq', 'Zs')),
+                                ('markup.valuePrefix', _value_prefix_form(attr, repeated), keyform_values(attr, 'Zp', 'Zr'))):
+            e = Effect('markup', key, abbr, vals, show)
+            e.keyform = (attr, tag)
+            out.append(e)
+    return out
+
+
+MARKUP_KEYFORM_EFFECTS = _keyform_effects()
+MARKUP_EFFECTS = MARKUP_EFFECTS + MARKUP_KEYFORM_EFFECTS
+
 EFFECTS = {'markup': MARKUP_EFFECTS, 'stylesheet': CSS_EFFECTS}
 BY_NAME = {e.name: e for es in EFFECTS.values() for e in es}
+assert len(BY_NAME) == sum(len(es) for es in EFFECTS.values()), 'effect entry names must be unique'
 def judge(effect, v, fam, eff, out):
     """-> (verdict, problems): verdict 'witness' | 'nothing-stated'; problems = list of texts."""
     w = effect.witness(v, fam, eff)
